@@ -92,8 +92,16 @@ macro_rules! chain_fns {
                 let mask = mask_of(&pat.pred);
                 let lab = leak(label(ids.li, ids.pi));
                 let line = (ids.li * 10 + ids.pi) as u32;
+                // every other matcher reports a diagnostic even when it accepts: the accept/reject
+                // decision is the returned bool, never what was reported
+                let noisy = (ids.li + ids.pi) % 2 == 0;
                 move |m: &mut Matching<F>| {
-                    m.func(move |a: &u8, _| (mask >> *a) & 1 == 1);
+                    m.func(move |a: &u8, r| {
+                        if noisy {
+                            r.pat_fail(0, Some("noise"), Some("noise"));
+                        }
+                        (mask >> *a) & 1 == 1
+                    });
                     m.pat_debug(lab, "model", line);
                 }
             }
